@@ -12,14 +12,14 @@ theorem primitives : type_of% (@C14.config_independent) := @C14.config_independe
 
 theorem rank9_rank1 (c c' : Cfg) (bv : BV) (h : bv.Inv) (pos : Nat) :
     (R9Index.buildRank c bv).rank1 c bv pos = (R9Index.buildRank c' bv).rank1 c' bv pos := by
-  rw [C01.holds_partial_rank1 c bv h pos, C01.holds_partial_rank1 c' bv h pos]
+  rw [R9Index.rank1_ok c bv h pos, R9Index.rank1_ok c' bv h pos]
 theorem rank9_select1 (c c' : Cfg) (bv : BV) (h : bv.Inv) (k : Nat) :
     R9Index.select1 c (R9Index.buildRank c bv) bv k = R9Index.select1 c' (R9Index.buildRank c' bv) bv k := by
-  rw [C01.holds_partial_select1_nohints c bv h k, C01.holds_partial_select1_nohints c' bv h k]
+  rw [R9Index.select1_nohints_ok c bv h k, R9Index.select1_nohints_ok c' bv h k]
 theorem bitvector_scans (c c' : Cfg) (b : BV) (h : b.Inv) (a : Nat) :
     b.rank1 c a = b.rank1 c' a ∧ b.rank0 c a = b.rank0 c' a ∧ b.select1 c a = b.select1 c' a := by
   refine ⟨?_, ?_, ?_⟩
-  · rw [C07.rank1 c b h a, C07.rank1 c' b h a]
-  · rw [C07.rank0 c b h a, C07.rank0 c' b h a]
-  · rw [C07.select1 c b h a, C07.select1 c' b h a]
+  · rw [BV.rank1_ok c b h a, BV.rank1_ok c' b h a]
+  · rw [BV.rank0_ok c b h a, BV.rank0_ok c' b h a]
+  · rw [BV.select1_ok c b h a, BV.select1_ok c' b h a]
 end Sucds.C15
